@@ -469,7 +469,7 @@ pub fn c16(args: &Args) -> i32 {
         }
         return crate::e3::c16_replay(args, &j);
     }
-    let run = Run::new(args, "fault_enumeration", 110.0, 2400.0);
+    let run = Run::new(args, "fault_enumeration", 110.0, 1500.0);
     run.set_rule("two legs. SEQUENTIAL: all histories up to depth 4/5 over 12 symbols (register p <- e, 2nd clause p <- f, register g, .rule drop / clear / remove / edit, two schema registrations, schema removal, save_all, restart) + final restart through the Handler: the rule and schema catalogs after every restart equal the catalogs served just before it, refused operations change nothing, acknowledged registrations are listed. CRASH: see crash_* keys - every file-system mutation boundary of recorded catalog histories x every admissible loss of unsynced state, recovery must succeed with the old or the new catalog, never an empty or unreadable one. non-trivial = histories with at least one catalog operation / crash images that differ from the clean final image");
     c16_seq(args, &run);
     crate::e3::c16_crash_leg(args, &run);
